@@ -36,12 +36,13 @@ RULE = ("cases: histories of CONNECT(clean|persistent)/SUBSCRIBE/UNSUBSCRIBE/con
         "size 1-3. group hist/wild: through client.go processSubscribe/processUnsubscribe/closeAndDelSession (wild = topic names "
         "containing wildcard characters, correspondence only); group conn: raw MQTT peers on Broker.handleConn over net.Pipe with "
         "persistent sessions, drop + reconnect(cleanSession=false) restoring the stored session, take-over of a connected id, "
-        "connection ends by DISCONNECT / socket close / Broker.deleteSession first, multi-filter UNSUBSCRIBE with never-subscribed "
+        "connection ends by DISCONNECT / socket close / Broker.deleteSession first, connections with a WILL that the Publish pipeline passes / drops / "
+        "answers with Disconnect, the zero-length client id (clean session), multi-filter UNSUBSCRIBE with never-subscribed "
         "filters before subscribed ones; group long = topic names and filters of exactly 65535 / 65534 bytes (one huge level, dev/<pad>/state, tens of thousands of "
         "1-byte or empty levels; compact {s*n} notation expanded inside Coq, model and spec run on the real string); "
         "group split = splitTopic on single strings. non-trivial = some findSubscribers returned a "
         "subscriber resp. non-empty string list (split); classes add: rejected-SUBSCRIBE(+1) connection-end(+2) >=2 subscribers(+4) "
-        "wildcard-topic-name(+8) and 16*(persistent(1) persistent-reconnect(2) take-over(4) broker-closed-first(8)); "
+        "wildcard-topic-name(+8) and 16*(persistent(1) persistent-reconnect(2) take-over(4) broker-closed-first(8) will(16) empty-client-id(32)); "
         "distinct = distinct (group, input) hashes among non-trivial cases")
 TRUSTED_BASE = [
     "model coq/model/Topic.v is hand-written; tied to pkg/object/mqttproxy (topic.go, client.go, session.go, broker.go handleConn/setSession/deleteSession) by the per-run correspondence (sampled)",
@@ -106,13 +107,13 @@ def _op(o):
     if k == "sub":
         fs, qs = o.get("f") or [], o.get("q") or []
         qs = list(qs) + [0] * (len(fs) - len(qs))
-        return C("TOp", C("Sub", S(o["c"]), L([T(S_(f), N(q)) for f, q in zip(fs, qs)])))
+        return C("TOp", C("Sub", S(o.get("c") or ""), L([T(S_(f), N(q)) for f, q in zip(fs, qs)])))
     if k == "unsub":
-        return C("TOp", C("Unsub", S(o["c"]), L([S_(f) for f in o.get("f") or []])))
+        return C("TOp", C("Unsub", S(o.get("c") or ""), L([S_(f) for f in o.get("f") or []])))
     if k == "disc":
-        return C("TOp", C("Disc", S(o["c"])))
+        return C("TOp", C("Disc", S(o.get("c") or "")))
     if k == "conn":
-        return C("TOp", C("Conn", S(o["c"]), B(o.get("clean", False))))
+        return C("TOp", C("Conn", S(o.get("c") or ""), B(o.get("clean", False))))
     if k == "find":
         return C("TFind", S_(o.get("t") or ""))
     raise ValueError(k)
@@ -135,10 +136,15 @@ def _obs(o):
 
 def _tag(ops):
     """bit mask of connection-level shapes: 1 persistent session, 2 persistent reconnect,
-    4 take-over, 8 closed by the broker before the connection ended"""
+    4 take-over, 8 closed by the broker before the connection ended, 16 connection with a WILL,
+    32 zero-length client id"""
     tag, online, seen = 0, {}, set()
     for o in ops:
-        k, c = o["k"], o.get("c")
+        k, c = o["k"], o.get("c") or ""
+        if k in ("conn", "sub", "unsub") and c == "":
+            tag |= 32
+        if k == "conn" and o.get("will"):
+            tag |= 16
         if k == "conn":
             clean = bool(o.get("clean", False))
             if not clean:
